@@ -88,6 +88,12 @@ func c02Devs() []c02Dev {
 		add("uid", "subject-"+u.n, func(c *refcfg.CertCfg, _ *c02Aux) { c.SubjectUID = u.r })
 		add("uid", "both-"+u.n, func(c *refcfg.CertCfg, _ *c02Aux) { c.IssuerUID, c.SubjectUID = u.r, u.r })
 	}
+	add("uid", "issuer-3B-subject-5B", func(c *refcfg.CertCfg, _ *c02Aux) {
+		c.IssuerUID, c.SubjectUID = refcfg.Bin([]byte{1, 2, 3}), refcfg.Bin([]byte{9, 8, 7, 6, 5})
+	})
+	add("uid", "issuer-empty-subject-1B", func(c *refcfg.CertCfg, _ *c02Aux) {
+		c.IssuerUID, c.SubjectUID = refcfg.Empty(), refcfg.Bin([]byte{0x80})
+	})
 	// key / signature algorithm pairs (self-signed: signature fits own key)
 	for _, k := range refx509.KeyAlgNames {
 		for _, s := range refx509.SigAlgNames {
@@ -289,6 +295,13 @@ func c02Once(x *engine.Ctx, c *c02Case) (violations int) {
 		diffs, _, err := g.CompareEntity(d, "ent", "")
 		if err == nil {
 			violations += reportOwned(x, "C02", diffs)
+			// "reads the same fields back": the unique ids and the serial belong to C03's wording as well
+			// as to this one - here they are reported when a parser reads something else than was configured
+			for _, df := range diffs {
+				if df.Owner == "C03" && (strings.HasPrefix(df.Class, "C03/uid/") || strings.HasPrefix(df.Class, "C03/serial/")) {
+					v("C02/readback/"+strings.TrimPrefix(df.Class, "C03/"), df.Detail+"  ["+strings.Join(names, " ")+"]")
+				}
+			}
 		}
 	}
 	// PEM: decoding then re-encoding each block reproduces the file text
